@@ -695,3 +695,38 @@ M("benign-fit-continue-style", ["~C01", "~C05", "~C11", "~C10"], SUP,
 M("benign-heap-last-test", ["~C01", "~C02", "~C05"], SUP,
   "        while not h.is_empty():\n            p = h.remove()\n\n            self.subgraph.idx_nodes.append(p)",
   "        while h.last > -1:\n            p = h.remove()\n\n            self.subgraph.idx_nodes.append(p)")
+
+# ---------------------------------------------------------------------------
+# premises (transparent properties, constants, defaults, entry conditions, fresh graph, configuration)
+# ---------------------------------------------------------------------------
+M("node-cost-setter-rounds", ["C01", "C03", "C13", "C14"], NODE,
+  "        self._cost = cost\n", "        self._cost = round(cost, 6)\n")
+M("node-pred-getter-shifted", ["C01", "C02", "C13", "C17"], NODE,
+  "        return self._pred\n", "        return max(self._pred, -1)\n")
+M("heap-cost-setter-copies", ["C05"], HEAP,
+  "        self._cost = cost\n", "        self._cost = list(cost)\n")
+M("const-gray-equals-white", ["C05", "C01", "C13"], CONST, "GRAY = 1\n", "GRAY = 0\n")
+M("const-nil-zero", ["C01", "C02", "C13", "C17"], CONST, "NIL = -1\n", "NIL = 0\n")
+M("node-default-relevant", ["C17"], NODE, "        self.relevant = c.IRRELEVANT\n", "        self.relevant = c.RELEVANT\n")
+M("node-default-pred-zero", ["C01", "C02"], NODE, "        self.pred = c.NIL\n        self.relevant", "        self.pred = 0\n        self.relevant")
+M("heap-default-policy-max", ["C01", "C02", "C05"], HEAP,
+  "    def __init__(self, size: int = 1, policy: str = \"min\") -> None:", "    def __init__(self, size: int = 1, policy: str = \"max\") -> None:")
+M("fit-early-return-small", ["C01"], SUP,
+  "        self._find_prototypes()\n\n        h = Heap(size=self.subgraph.n_nodes)\n\n        for i in range(self.subgraph.n_nodes):\n            if self.subgraph.nodes[i].status == c.PROTOTYPE:",
+  "        self._find_prototypes()\n\n        if self.subgraph.n_nodes < 3:\n            self.subgraph.trained = True\n            return\n\n        h = Heap(size=self.subgraph.n_nodes)\n\n        for i in range(self.subgraph.n_nodes):\n            if self.subgraph.nodes[i].status == c.PROTOTYPE:")
+M("fit-reuses-subgraph", ["C01", "C07"], SUP,
+  "        self.subgraph = Subgraph(X_train, Y_train, I=I_train)\n\n        self._find_prototypes()",
+  "        if self.subgraph is None or self.subgraph.n_nodes != len(X_train):\n            self.subgraph = Subgraph(X_train, Y_train, I=I_train)\n\n        self._find_prototypes()")
+M("uns-fit-clamps-max-k", ["C07"], UNS,
+  "        self.subgraph = KNNSubgraph(X_train, Y_train, I_train)\n\n        self._best_minimum_cut(self.min_k, self.max_k)",
+  "        self.subgraph = KNNSubgraph(X_train, Y_train, I_train)\n        self.max_k = min(self.max_k, self.subgraph.n_nodes - 1)\n\n        self._best_minimum_cut(self.min_k, self.max_k)")
+M("heap-remove-skips-sift", ["C05"], HEAP,
+  "            self.last -= 1\n\n            self.go_down(0)\n", "            self.last -= 1\n\n            if self.left_son(0) < self.last:\n                self.go_down(0)\n")
+M("heap-remove-sift-when-nonempty", ["~C05"], HEAP,
+  "            self.last -= 1\n\n            self.go_down(0)\n", "            self.last -= 1\n\n            if self.last > 0:\n                self.go_down(0)\n")
+M("heap-update-early-exit", ["C05"], HEAP,
+  "        self.cost[p] = cost\n\n        if self.color[p] == c.BLACK:", "        if self.cost[p] == cost:\n            return\n\n        self.cost[p] = cost\n\n        if self.color[p] == c.BLACK:")
+M("build-nan-to-num-inplace", ["C07"], SUBG,
+  "        for i, (feature, label) in enumerate(zip(X, Y)):\n", "        for i, (feature, label) in enumerate(zip(X, Y)):\n            feature = np.nan_to_num(feature, copy=False)\n")
+M("knn-learn-no-destroy-2", ["C12", "C13", "C16"], KNN,
+  "            logger.info(\"Accuracy over k = %d: %s\", k, acc)\n\n            self.subgraph.destroy_arcs()\n", "            logger.info(\"Accuracy over k = %d: %s\", k, acc)\n")
